@@ -16,12 +16,12 @@ ASSUME = ['the hand-written Gallina model (coq/CoreModel.v, CoreExec.v) correspo
           'epoll plugin only; timers/signals fire when the script says so (timerfd contract assumed); single context on one thread in this engine',
           'scripts in known-finding regions (model trace contains FAULT) are run only as named corpus cases']
 
-STRUCT = ('mod ', 'tslot ', 'rem ', 'cb ', 'proc ', 'endproc')
+STRUCT = ('mod ', 'tslot ', 'rem ', 'cb ', 'proc ', 'endproc', 'pipecap ')
 
 class CoreCheck(Check):
     driver = 'drv_core'
     driver_srcs = CORE_SRCS
-    driver_flags = ('-DLIBMODULE_LOG_CTX=CORE', '-Wl,--wrap=epoll_wait,--wrap=timerfd_settime,--wrap=close,--wrap=m_mem_new')
+    driver_flags = ('-DLIBMODULE_LOG_CTX=CORE', '-Wl,--wrap=epoll_wait,--wrap=timerfd_settime,--wrap=close,--wrap=m_mem_new,--wrap=pipe')
     driver_libs = ('-lpthread', '-ldl')
     model = 'core'
     trusted = TRUSTED
@@ -169,6 +169,7 @@ def mon_messages(case, ctr):
     """at most once per recipient (stash replays excepted), send order per recipient, autofree exactly once and only for autofree sends"""
     res = []; sends = sends_of(case)
     seen = {}; last = {}; stashed = {}; frames = []; freed = {}; sendidx = {}; nsend = 0
+    multi = {int(l.split()[3]) for l in case[2] if l.startswith('tellmany ')}
     pending = None; parg = 0
     for l in ctr:
         if l.startswith('> '):
@@ -185,7 +186,7 @@ def mon_messages(case, ctr):
                             if stashed.get(key, 0) <= 0: res.append(('module %d got payload %d again without having stashed it' % key, None))
                             else: stashed[key] -= 1
                         else:
-                            if key in seen: res.append(('module %d received payload %d twice' % key, None))
+                            if key in seen and d not in multi: res.append(('module %d received payload %d twice' % key, None))
                             seen[key] = True
                             if d in sendidx:
                                 if last.get(m, -1) > sendidx[d]: res.append(('module %d received payload %d after a later one: send order not kept' % (m, d), None))
@@ -204,7 +205,7 @@ def mon_messages(case, ctr):
             continue
         m2 = re.match(r'^r(-?\d+)$', l)
         if m2:
-            if pending in ('tell', 'publish', 'broadcast') and m2.group(1) == '0' and parg and parg not in sendidx:
+            if pending in ('tell', 'publish', 'broadcast', 'tellmany') and m2.group(1) == '0' and parg and parg not in sendidx:
                 sendidx[parg] = nsend; nsend += 1
             if pending == 'stash' and m2.group(1) == '0' and frames and parg:
                 sm, k = parg // 100 - 1, parg % 100 - 1
@@ -273,15 +274,8 @@ class C02(CoreProp):
     def nontrivial(self, case, ctr):
         return ctr is not None and sum(1 for l in ctr if l.startswith('cb ') and ' 0:' in l) >= 2
     def extra_cases(self, tier, seed, ctx):
-        # bursts beyond the pipe capacity (8192 messages): the overflowing copies must be dropped cleanly
-        res = []
-        for i in range(3 if tier == 'quick' else 12):
-            P = ctx['params']; n = 8192 + 5 + i
-            lines = ['mod 0 %d %d 0 0 0 0 0 0 0 0' % (P.names[0], P.mslot[P.names[0]]), 'mod 1 %d %d 0 0 0 0 0 0 0 0' % (P.names[1], P.mslot[P.names[1]]),
-                     'proc 1', 'ctxreg 1', 'reg 0', 'reg 1', 'start 0', 'start 1', 'live']
-            # one procedure cannot hold that many calls in the C driver: repeat through a callback-free loop of tells
-            res.append(('burst%d' % i, 'core', lines + ['tellmany 0 1 %d %d' % (100 + i, n), 'live', 'dispatch', 'stop 1', 'live', 'dereg 0', 'dereg 1', 'ctxdereg', 'live', 'endproc']))
-        return []     # enabled once the drivers implement `tellmany`
+        # bursts beyond the pipe capacity (8192 messages): the overflowing copies must be dropped cleanly, nobody else is affected
+        return [('burst%d' % i, ) + GC.gen_burst_case(case_rng(seed, self.pid + 'burst', i), ctx['params']) for i in range(6 if tier == 'quick' else 60)]
 
 class C03(CoreProp):
     scenario = staticmethod(GC.gen_sources_case)
@@ -294,6 +288,7 @@ class C03(CoreProp):
         return ctr is not None and any(l.startswith('cb ') and re.search(r' [1-7]:', l) for l in ctr)
 
 class C04(CoreProp):
+    scenario = staticmethod(GC.gen_mixed_case)
     pid = 'C04'; props_file = 'Props_C04'; focus = {'reent', 'life', 'ps', 'stash'}
     proj = None
     rule = ('corpus + random programs mixing every API family with re-entrant callbacks, retained module and event references released in '
@@ -354,7 +349,7 @@ class C16(CoreProp):
         return ctr is not None and any(ctr[i].startswith('> stash') and i + 1 < len(ctr) and ctr[i + 1] == 'r0' for i in range(len(ctr)))
 
 class C17(CoreProp):
-    scenario = staticmethod(GC.gen_stash_case)
+    scenario = staticmethod(GC.gen_become_case)
     pid = 'C17'; props_file = 'Props_C17'; focus = {'become', 'ps', 'life'}
     proj = Proj(exact=('become', 'unbecome'), cb=cb_handler)
     rule = ('corpus + random programs with become/unbecome from outside and inside handlers, deliveries, stash replays, stop/start cycles; '
